@@ -88,7 +88,7 @@ def configs(tier):
                 cfg("c3x1", 3, 1, 3, "<<1,2>>", "{<<>>, <<<<1,1>>>>, <<<<2,2>>,<<1,1>>>>}", ALL, poison=1),
                 # cache WithDeleteCallback, the callback is a yield point inside the locked section; calls
                 # started while another one is inside its locked section must wait for the mutex
-                cfg("cbw2", 2, 2, 2, "<<1,2>>", "{<<<<2,1>>,<<1,1>>>>}", PGD, nk=3, cb=True, waits=True),
+                cfg("cbw2k2", 2, 2, 2, "<<1,2>>", "{<<<<2,1>>,<<1,1>>>>}", PGD, cb=True, waits=True),
                 cfg("cbw3", 3, 1, 2, "<<1,2>>", "{<<<<2,1>>,<<1,1>>>>}", PGDL, nk=3, cb=True, waits=True),
             ]
         return [
@@ -119,6 +119,16 @@ def configs(tier):
             cfg("c3x2k3", 3, 2, 2, "<<1,2>>", "{<<<<2,1>>,<<1,1>>>>}", PGD, nk=3, maxel=10),
             cfg("c3x2all", 3, 2, 3, "<<1,2>>", "{<<>>, <<<<2,2>>,<<1,1>>>>}", ALL, poison=1, maxel=10),
             cfg("c3x3", 3, 3, 2, "<<1,2>>", "{<<<<1,1>>>>}", '{"Put","Del"}', maxel=12),
+            # caches WithDeleteCallback (callback = yield point inside the locked section) and calls that
+            # must wait for the mutex; cbw2m: one Put evicts three entries (three callbacks); cbw3p: a
+            # failing Size() among the victims; c3x1w: waiting calls without a callback
+            cfg("cbw2k2", 2, 2, 2, "<<1,2>>", "{<<<<2,1>>,<<1,1>>>>}", PGD, cb=True, waits=True),
+            cfg("cbw2", 2, 2, 2, "<<1,2>>", "{<<<<2,1>>,<<1,1>>>>}", PGD, nk=3, cb=True, waits=True),
+            cfg("cbw3", 3, 1, 2, "<<1,2>>", "{<<<<2,1>>,<<1,1>>>>}", PGDL, nk=3, cb=True, waits=True),
+            cfg("cbw2m", 2, 2, 3, "<<1,3>>", "{<<<<3,1>>,<<2,1>>,<<1,1>>>>}", PGD, nk=3, cb=True, waits=True),
+            cfg("cbw3p", 3, 1, 3, "<<1,1,3>>", "{<<<<3,1>>,<<2,2>>,<<1,1>>>>}", PGD, nk=3, cb=True, waits=True,
+                poison=1),
+            cfg("c3x1w", 3, 1, 3, "<<1,2>>", "{<<>>, <<<<1,1>>>>, <<<<2,2>>,<<1,1>>>>}", ALL, poison=1, waits=True),
         ]
     return [
         cfg("seq6", 1, 6, 2, "<<1,2,3>>", "{<<>>}", ALL, poison=1),
